@@ -170,6 +170,56 @@ func checkC10(p *Program, r *Report) {
 			if u, ok := v.(*ssa.UnOp); ok && u.Op == token.NOT {
 				v, truth = u.X, !truth
 			}
+			if ph, isPhi := v.(*ssa.Phi); isPhi && truth && readerFn != nil {
+				// a flag local to this iteration: every `true` that can reach it is set behind matches(push) of this output,
+				// everything else is the constant false, and no φ of the web sits at the output loop's header (not carried over)
+				okFlag := true
+				seenPhi := map[*ssa.Phi]bool{}
+				var chase func(ph *ssa.Phi)
+				chase = func(ph *ssa.Phi) {
+					if seenPhi[ph] {
+						return
+					}
+					seenPhi[ph] = true
+					if !body[ph.Block()] {
+						okFlag = false
+						return
+					}
+					for k, e := range ph.Edges {
+						switch x := e.(type) {
+						case *ssa.Phi:
+							chase(x)
+						case *ssa.Const:
+							bv, isB := constBool(x)
+							if !isB {
+								okFlag = false
+							} else if bv {
+								behind := false
+								pred := ph.Block().Preds[k]
+								conds := MustCondsAtBlock(matcher, pred)
+								if ec, ok := edgeCond(pred, ph.Block()); ok {
+									conds = append(conds, ec)
+								}
+								for _, c2 := range conds {
+									if mc, ok := c2.V.(*ssa.Call); ok && c2.Truth && mc.Call.StaticCallee() == readerFn && body[mc.Block()] {
+										behind = true
+									}
+								}
+								if !behind {
+									okFlag = false
+								}
+							}
+						default:
+							okFlag = false
+						}
+					}
+				}
+				chase(ph)
+				if okFlag {
+					okOwn, howOwn = true, "behind a flag that is set only by matches(push) of this output and starts false in every iteration"
+				}
+				continue
+			}
 			mc, ok := v.(*ssa.Call)
 			if !ok || !truth || readerFn == nil || mc.Call.StaticCallee() != readerFn {
 				continue
